@@ -847,6 +847,12 @@ func (fr *Frame) rangeInit(i *ssa.Range, st *State) Val {
 	key := fmt.Sprintf("$visited%d_%s_d%d", ord, sanitize(fr.fn.Name()), fr.depth)
 	vc.eng.noteGlobSort(key, SArrIB)
 	st.setGlob(key, T{"((as const (Array Int Bool)) false)", SArrIB})
+	// ghost visit order: vidx[k] is the position at which key k was visited, vcount the number visited
+	ik, ck := strings.Replace(key, "$visited", "$vidx", 1), strings.Replace(key, "$visited", "$vcount", 1)
+	vc.eng.noteGlobSort(ik, SArrII)
+	vc.eng.noteGlobSort(ck, SInt)
+	st.setGlob(ik, T{"((as const (Array Int Int)) 0)", SArrII})
+	st.setGlob(ck, I(0))
 	m, _ := fr.val(i.X).(T)
 	return &TupleV{E: []Val{m, vc.strLit(key)}} // iterator value: (map ref, key name id)
 }
@@ -895,6 +901,11 @@ func (fr *Frame) rangeNext(i *ssa.Next, cond T, st *State) Val {
 	vc.assert(Imp(okv, And(Sel(d, k), Not(Sel(vis, k)))))
 	vc.assert(Imp(Not(okv), T{fmt.Sprintf("(forall ((q Int)) (! (=> (select %s q) (select %s q)) :pattern ((select %s q))))", d.S, vis.S, d.S), SBool}))
 	st.setGlob(key, vc.name("vis", Ite(okv, Sto(vis, k, tTrue), vis)))
+	ik, ck := strings.Replace(key, "$visited", "$vidx", 1), strings.Replace(key, "$visited", "$vcount", 1)
+	vidx := vc.getGlob(st, ik, SArrII)
+	vcnt := vc.getGlob(st, ck, SInt)
+	st.setGlob(ik, vc.name("vidx", Ite(okv, Sto(vidx, k, vcnt), vidx)))
+	st.setGlob(ck, vc.name("vcount", Ite(okv, Add(vcnt, I(1)), vcnt)))
 	v := vc.fresh("rv", vs)
 	vc.assert(Eq(v, Sel(Sel(va, m), k)))
 	vc.typeAssume(v, mt.Elem())
